@@ -362,3 +362,30 @@ func VerifGraceWithoutClosers() {
 	zzverif.Assert(zzverif.ThreadsAliveIs(0), "watchdog_gone")
 	zzverif.Cover("grace_without_closers_done")
 }
+
+// A manager without runners is still a manager that runs at most once: Run returns nil at once, a second Run and a
+// later Add are refused with ErrManagerAlreadyStarted; the same for a RunnerCloserManager without runners (whose Run
+// waits for Close).
+//
+//verif:harness prop=C12 name=empty_manager_runs_once threads=3 sched=delay preempt=2 t_preempt=3 unwind=10 witness=lenient
+func VerifEmptyManagerRunsOnce() {
+	if zzverif.Bool("closer_manager") {
+		mgr := NewRunnerCloserManager(vNopLogger(), nil)
+		done := make(chan error, 1)
+		go func() { done <- mgr.Run(context.Background()) }()
+		zzverif.WaitQuiescent()
+		zzverif.Assert(mgr.Add(func(ctx context.Context) error { return nil }) == ErrManagerAlreadyStarted, "add_after_start_refused")
+		zzverif.Assert(mgr.Run(context.Background()) == ErrManagerAlreadyStarted, "second_run_refused")
+		zzverif.Assert(mgr.Close() == nil, "close_returns_nil")
+		zzverif.Assert(<-done == nil, "run_returns_nil")
+		zzverif.Cover("empty_closer_manager_done")
+		return
+	}
+	mgr := NewRunnerManager()
+	zzverif.Assert(mgr.Run(context.Background()) == nil, "empty_run_returns_nil")
+	ran := false
+	zzverif.Assert(mgr.Add(func(ctx context.Context) error { ran = true; return nil }) == ErrManagerAlreadyStarted, "add_after_start_refused")
+	zzverif.Assert(mgr.Run(context.Background()) == ErrManagerAlreadyStarted, "second_run_refused")
+	zzverif.Assert(!ran, "runner_added_after_start_never_runs")
+	zzverif.Cover("empty_manager_done")
+}
